@@ -26,7 +26,7 @@ type c09Tunnel struct {
 
 func CheckC09(l *Lab, verifDir string) int {
 	rep := NewReport("C09", l.Tier, l.Seed, "exploration", verifDir)
-	rep.Rule = "rounds of N in {8,16,32,64} concurrent tunnels (both transports, several users) against the race-instrumented real binary, each tunnel doing one of: streams then close, CLOSE_CHANNEL while the host is still streaming, out-of-order handshake while the host is streaming, keep-alive bursts, FIN / RST of the websocket or of legacy IN / OUT mid-stream, connect-disconnect storms, early FIN, tunnel-auth only, a tunnel alive > 1 s that keeps sending (idle timeout configured negative on one gateway, positive on the other); PRNG start offsets and delay points (registry, tunnel.write, forward.beforeWrite, process.afterRead, legacy.attach). Verdict: any race-detector report, fatal error, panic, process exit, or a client stream that does not parse as whole packets / whose DATA payload is not a prefix of its own host's generator stream. non-trivial = tunnel got at least one response; distinct = interleaving signature of the round (global order of response arrivals per tunnel rank)"
+	rep.Rule = "rounds of N in {8,16,32,64} concurrent tunnels (both transports, several users) against the race-instrumented real binary, each tunnel doing one of: streams then close, CLOSE_CHANNEL while the host is still streaming, out-of-order handshake while the host is streaming, keep-alive bursts, FIN / RST of the websocket or of legacy IN / OUT mid-stream, connect-disconnect storms, simultaneous RDG_IN_DATA requests under one connection id, early FIN, tunnel-auth only, a tunnel alive > 1 s that keeps sending (idle timeout configured negative on one gateway, positive on the other); PRNG start offsets and delay points (registry, tunnel.write, forward.beforeWrite, process.afterRead, legacy.attach). Verdict: any race-detector report, fatal error, panic, process exit, or a client stream that does not parse as whole packets / whose DATA payload is not a prefix of its own host's generator stream. non-trivial = tunnel got at least one response; distinct = interleaving signature of the round (global order of response arrivals per tunnel rank)"
 	rounds := l.Pick(40, 600)
 	sizes := []int{8, 16, 32, 64}
 	rnd := NewRand(l.Seed, "c09")
@@ -78,6 +78,10 @@ func CheckC09(l *Lab, verifDir string) int {
 				}
 				ov := c09Round(rep, m, r, ts)
 				totalOverlap += ov
+				if r%4 == 2 {
+					// several RDG_IN_DATA requests for one connection id at the same moment
+					c07InRace(rep, m, r, "C09")
+				}
 				if !m.GW.Alive() || rep.ViolationCount() > 10 || rep.InconclusiveCount() > 200 {
 					break // a broken tree: further rounds only cost watchdog time
 				}
